@@ -96,7 +96,7 @@ hll_sketch_alloc<A>::hll_sketch_alloc(HllSketchImpl<A>* that) :
 template<typename A>
 hll_sketch_alloc<A>& hll_sketch_alloc<A>::operator=(const hll_sketch_alloc<A>& other) {
   HllSketchImpl<A>* copy = other.sketch_impl->copy(); // copy first: other may be *this
-  sketch_impl->get_deleter()(sketch_impl);
+  if (sketch_impl != nullptr) sketch_impl->get_deleter()(sketch_impl); // null after having been moved from
   sketch_impl = copy;
   return *this;
 }
